@@ -60,6 +60,11 @@ type SubCache[EntityT entity.Interface, ExcerptT Excerpt, CacheT CacheEntity] st
 	excerpts map[entity.Id]ExcerptT
 	cached   map[entity.Id]CacheT
 	lru      lruIdCache
+
+	// indexMu makes "read the entity's text, then store it in the search index" one step: without
+	// it a goroutine could index text it had read before another goroutine's edit, after that
+	// goroutine indexed the newer text.
+	indexMu sync.Mutex
 }
 
 func NewSubCache[EntityT entity.Interface, ExcerptT Excerpt, CacheT CacheEntity](
@@ -587,7 +592,9 @@ func (sc *SubCache[EntityT, ExcerptT, CacheT]) MergeAll(remote string) <-chan en
 				// keep the search index in step with the merged entity
 				index, err := sc.repo.GetIndex(sc.namespace)
 				if err == nil {
+					sc.indexMu.Lock()
 					err = index.IndexOne(result.Id.String(), sc.makeIndexData(cached))
+					sc.indexMu.Unlock()
 				}
 				if err != nil {
 					out <- entity.NewMergeError(err, result.Id)
@@ -634,7 +641,9 @@ func (sc *SubCache[EntityT, ExcerptT, CacheT]) entityUpdated(id entity.Id) error
 		return err
 	}
 
+	sc.indexMu.Lock()
 	err = index.IndexOne(e.Id().String(), sc.makeIndexData(e))
+	sc.indexMu.Unlock()
 	if err != nil {
 		return err
 	}
